@@ -7,6 +7,7 @@ from .scope import SourceScope, ClassScope
 from .nast import extract_scope
 from .compat import itervalues
 from .evaluator import EvalCtx
+from .project import request
 
 
 IGNORED_SCOPES = SourceScope, ClassScope
@@ -21,6 +22,7 @@ def use_name(name):
         name.used = True
 
 
+@request
 def lint(project, source, filename=None, debug=False):
     source = Source(source, filename)
     try:
